@@ -9,7 +9,7 @@ import json, os, subprocess, sys, math, itertools
 from fractions import Fraction
 import numpy as np
 
-sys.path.insert(0, '/repo')
+sys.path.insert(0, __import__('os').environ.get('DEEPROB_REPO', '/repo'))
 import deeprob.spn.structure.cltree as cltree
 from deeprob.spn.structure.cltree import BinaryCLT
 
